@@ -516,6 +516,13 @@ def check_op(case, op, o):
         if ex["upd"] and not ex["sup"] and not unrooted_view and gotc == canon_spec(want_sup):
             return ("%s: suppress_unifurcations=False declined, but update_bipartitions=True suppressed the "
                     "unifurcations anyway" % tag, "update-bipartitions-overrides-declined-suppression")
+        if name == "PruneSubtree":
+            wk = py_restrict(spec, ex["keepl"], ex["keepi"], lambda nd: True, ex["sup"] or (ex["upd"]))
+            if wk is not None and canon_spec(wk) != canon_spec(py_restrict(spec, ex["keepl"], ex["keepi"], ex["keepe"], ex["sup"] or ex["upd"])):
+                stay = [n["id"] for n in trees.leaves(wk) if n["taxon"] is None]
+                if stay and all(any(n["id"] == i and not n["kids"] for n in trees.preorder(got)) for i in stay):
+                    return ("%s: the parent of the pruned subtree had no other child and stays behind as a "
+                            "taxon-less leaf (node %s)" % (tag, stay), "prune-subtree-childless-parent-stays")
         if unrooted_view:
             # an unrooted tree may have had its basal bifurcation collapsed by the encoding: compare as
             # unrooted trees (leaf identity, bipartitions, path lengths)
@@ -529,11 +536,6 @@ def check_op(case, op, o):
                 return ("%s: suppress_unifurcations=False declined, but update_bipartitions=True suppressed the "
                         "unifurcations anyway" % tag, "update-bipartitions-overrides-declined-suppression")
         else:
-            if name == "PruneSubtree" and ex["sup"] is not None:
-                wk = py_restrict(spec, ex["keepl"], ex["keepi"], lambda nd: True, ex["sup"])
-                if wk is not None and gotc == canon_spec(wk):
-                    return ("%s: the parent of the pruned subtree had no other child and stays behind as a "
-                            "taxon-less leaf" % tag, "prune-subtree-childless-parent-stays")
             return ("%s: result %s is not the induced subtree %s" % (tag, trees.newick(got), trees.newick(want)),
                     "not-induced:" + name)
     if ex["upd"] and o.get("enc_ok") and not o["enc_ok"][1]:
@@ -912,8 +914,9 @@ def run(tier, seed, replay=None):
         core.broken_proof(ctx, search)
     rng = ctx.rng
     if tier == "quick":
-        cases = [gen_case(rng) for _ in range(330)] + [gen_case(rng, big=True) for _ in range(20)]
-        cases += list(exhaustive_cases(rng, 4, 4))
+        cases = [gen_case(rng) for _ in range(260)] + [gen_case(rng, big=True) for _ in range(14)]
+        small = list(exhaustive_cases(rng, 4, 3))
+        cases += [c for c in small if len(trees.leaves(c["tree"])) <= 3 or rng.random() < 0.4]
     else:
         cases = [gen_case(rng) for _ in range(3000)] + [gen_case(rng, big=True) for _ in range(150)]
         cases += list(exhaustive_cases(rng, 5, 5))
@@ -943,5 +946,6 @@ def run(tier, seed, replay=None):
                            "filter_leaf_nodes, prune_subtree, prune_leaves_without_taxa, suppress_unifurcations, "
                            "remove_child, extract_tree / Node.extract_subtree with node filters on leaves and internal "
                            "nodes, all with random update_bipartitions / suppress_unifurcations; plus every shape "
-                           "x every leaf subset for <= 4 leaves (quick), <= 5 in Coq and <= 7 by the oracle (thorough). "
+                           "x every leaf subset for <= 3 leaves and a 40% sample for 4 (quick); <= 5 leaves in Coq, "
+                           "6-7 leaves all subsets by the oracle with a 2% sample in Coq (thorough). "
                            "Non-trivial = tree with >= 3 leaves on which some operation removed a node; distinct by case content")
